@@ -2,7 +2,7 @@
 Require Import Ink.Lib.Str.
 Require Import NArith List Bool.
 Require Import Ink.Model.Tables.
-Require Import Ink.Driver.RunBoard Ink.Driver.RunTable Ink.Driver.RunHistory Ink.Driver.RunPgn Ink.Driver.RunLichess Ink.Driver.RunUci Ink.Driver.RunUciOut Ink.Driver.RunSan.
+Require Import Ink.Driver.RunBoard Ink.Driver.RunTable Ink.Driver.RunHistory Ink.Driver.RunPgn Ink.Driver.RunLichess Ink.Driver.RunUci Ink.Driver.RunUciOut Ink.Driver.RunSan Ink.Driver.RunEval Ink.Driver.RunSearch.
 Import ListNotations.
 
 Definition families : list (str * (Tables.t -> str -> str)) :=
@@ -16,7 +16,8 @@ Definition families : list (str * (Tables.t -> str -> str)) :=
     (lit "lichess", fun _ => run_lichess);
     (lit "uciparse", fun _ => run_uciparse); (lit "ucimove", fun _ => run_ucimove);
     (lit "spec-engineline", fun _ => run_spec_engineline); (lit "consoletx", fun _ => run_consoletx); (lit "consoletx-ok", fun _ => run_consoletx_ok);
-    (lit "spec-san", fun _ => run_spec_san); (lit "spec-sanparse", fun _ => run_spec_sanparse) ].
+    (lit "spec-san", fun _ => run_spec_san); (lit "spec-sanparse", fun _ => run_spec_sanparse);
+    (lit "eval", run_eval); (lit "session", run_session) ].
 
 Fixpoint lookup_family (name : str) (l : list (str * (Tables.t -> str -> str))) : option (Tables.t -> str -> str) :=
   match l with [] => None | (n, f) :: r => if str_eqb n name then Some f else lookup_family name r end.
